@@ -16,6 +16,8 @@
 // Statements: <dst> = <op> <args...> k=v ...   |   RET <src>   |   bind/bindd/rank ...
 #include "hg_nodes.h"
 #include "hg_coll.h"
+#include <hgraph/lib/std/operators/impl/record_replay_memory_impl.h>
+#include <hgraph/lib/testing/record_replay.h>
 
 #include <thread>
 
@@ -312,7 +314,7 @@ namespace hv
     struct MainG
     {
         static constexpr auto name = "main";
-        static void compose(Wiring &w) { interpret(w, ctx().graphs.at("main"), {}, nullptr); }
+        static void compose(Wiring &w, Scalar<"g", Str> g) { interpret(w, ctx().graphs.at(g.value()), {}, nullptr); }
     };
 
 #include "hg_coll_interp.inl"
@@ -344,6 +346,51 @@ namespace hv
         }
     }
 
+    // Staged execution (C20): graphs main, main2, main3 run one after the other; the GlobalState of each stage's
+    // root graph is carried into the next stage's builder (record in stage k, replay in stage k+1).
+    inline void run_staged(Ctx &c, const std::string &name)
+    {
+        GlobalState carried;
+        int stage = 0;
+        for (const std::string gname : {"main", "main2", "main3"})
+        {
+            if (!c.graphs.count(gname)) break;
+            c.fault_counts.clear();
+            c.gid_by_addr.clear();
+            c.next_gid = 0;
+            Line("RUN").i(stage);
+            std::string status = "ok";
+            try
+            {
+                GraphBuilder gb = build_graph<MainG>(Str{gname});
+                gb.global_state().copy_from(carried.view());
+                Obs obs;
+                GraphExecutorBuilder eb;
+                eb.graph_builder(std::move(gb)).start_time(tabs(c.win_start)).end_time(tabs(c.win_end)).add_lifecycle_observer(&obs);
+                GraphExecutorValue ex = eb.make_executor();
+                ex.view().run();
+                auto gs = ex.view().graph().global_state();
+                for (const auto &key : split(c.opt_str("gsdump", ""), ','))
+                {
+                    if (key.empty() || !gs.contains(key)) continue;
+                    std::string v = gs.get(key).to_string();
+                    for (char &ch : v) { if (ch == ' ' || ch == '\n' || ch == '\t') ch = '_'; }
+                    Line("GS").i(stage).s(key).s(v);
+                }
+                carried.view().copy_from(gs);
+            }
+            catch (const std::exception &e)
+            {
+                Line("X.run").s(typeid(e).name()).s(e.what());
+                status = "run-failed";
+            }
+            Line("RUN.returned").i(stage);
+            Line("RUN.released").i(stage).s(status);
+            ++stage;
+        }
+        Line("ENDCASE").s(name).s("done");
+    }
+
     inline void run_case(Ctx &c, const std::string &name)
     {
         tl_ctx = &c;
@@ -351,10 +398,11 @@ namespace hv
         c.busy_ns = c.opt_int("busy", 0);
         const long long repeat = c.opt_int("repeat", 1);
         Line("CASE").s(name).i(c.win_start).i(c.win_end);
+        if (c.graphs.count("main2")) { run_staged(c, name); return; }
         std::optional<GraphBuilder> gb;
         try
         {
-            gb.emplace(build_graph<MainG>());
+            gb.emplace(build_graph<MainG>(Str{"main"}));
         }
         catch (const std::exception &e)
         {
